@@ -487,6 +487,18 @@ def run_mitm(spec):
     sch.run(1500, until=dp.both_connected)
     link = dp.selected_link()
     if link is None:
+        # nothing has been tampered with yet: two honest, correctly keyed peers on a faultless network
+        end0 = sch.drain(120.0, 30000, until=dp.both_connected)
+        link = dp.selected_link()
+        if link is None and end0 != "steps":
+            drops = [x for x in world.reactor.netlog if x[0] in ("abort", "close", "lost")][-6:]
+            world.finish()
+            return {"violations": [{"key": "C12/e2e/honest-frames-rejected-peers-never-connect",
+                                    "msg": "no tampering yet, 120 virtual s: no connection in use (managers %s/%s); the application had written %s" % (
+                                        dp.mstate("A"), dp.mstate("B"), "records of up to %d bytes" % max([len(getattr(r_, "data", b"")) for (_, r_) in _l2_sent] or [0])),
+                                    "witness": {"spec": spec, "netlog_tail": world.reactor.netlog[-20:], "drops": drops}}],
+                    "nontrivial": None, "counters": {}}
+    if link is None:
         world.finish()
         return {"inconclusive": "no selected link", "violations": []}
     d = spec["dir"]
